@@ -75,28 +75,14 @@ def zero_based_reads(e, loopvars=()):
     return out
 
 
-def format_args(func):
-    """(conversion arg expr, Mod node) for every %-format application in func"""
+def format_args(func, flow=None):
+    """(written value expr, Mod node) for every %-format application in func"""
+    from ..fmt import written_values
     out = []
     for n in walk_no_nested(func.node):
         if isinstance(n, ast.BinOp) and isinstance(n.op, ast.Mod):
-            r = n.right
-            items = []
-
-            def flat(e):
-                if isinstance(e, ast.Tuple):
-                    for x in e.elts:
-                        flat(x)
-                elif isinstance(e, ast.BinOp) and isinstance(e.op, ast.Add) and \
-                        (isinstance(e.left, (ast.Tuple, ast.Call)) or isinstance(e.right, (ast.Tuple, ast.Call))):
-                    flat(e.left)
-                    flat(e.right)
-                elif isinstance(e, ast.Call) and isinstance(e.func, ast.Name) and e.func.id == 'format_float' and e.args:
-                    flat(e.args[0])
-                else:
-                    items.append(e)
-            flat(r)
-            for it in items:
+            at = flow.node_id_of(n) if flow is not None else None
+            for it in written_values(n.right, flow, at):
                 out.append((it, n))
     return out
 
@@ -192,7 +178,7 @@ def run(ctx, ck):
             if isinstance(l, ast.For) and 'pulse_idx_iter' in norm(l.iter) and isinstance(l.target, ast.Name):
                 loopvars.add(l.target.id)
         seen = set()
-        for arg, modn in format_args(f_):
+        for arg, modn in format_args(f_, ctx.flow(f_)):
             zs = zero_based_reads(arg, loopvars)
             if not zs:
                 continue
@@ -207,7 +193,7 @@ def run(ctx, ck):
                   'prints %s' % norm(arg) if ok else
                   'prints the 0-based number %s without exactly one `+ 1`' % norm(arg))
             n_out += 1
-    ck.floor('printed 0-based numbers', n_out, 16)
+    ck.floor('printed 0-based numbers', n_out, 14)
 
     # ---------------------------------------------------------------- D2 input
     mainf = m.func('mininec.main')
